@@ -122,12 +122,18 @@ impl SymbolTable {
     pub fn resolve(&mut self, name: &str, depth: usize) -> Option<Rc<Symbol>> {
         if let Some(symbols) = self.store.get(name) {
             for symbol in symbols.iter().rev() {
-                if symbol.depth <= depth {
+                // A captured (free) symbol is visible in the whole function
+                if symbol.depth <= depth || symbol.scope == SymbolScope::Free {
                     return Some(Rc::clone(symbol));
                 }
             }
-        } else if let Some(outer) = &mut self.outer {
-            if let Some(obj) = outer.resolve(name, depth) {
+        }
+        // Not visible in this table: look in the enclosing function. Symbols of
+        // blocks that have ended are removed by leave_block(), so every symbol
+        // the enclosing table still holds is visible from here whatever the
+        // block depth inside this function is.
+        if let Some(outer) = &mut self.outer {
+            if let Some(obj) = outer.resolve(name, usize::MAX) {
                 if matches!(
                     obj.scope,
                     SymbolScope::Global | SymbolScope::BuiltinFn | SymbolScope::BuiltinVar
@@ -139,6 +145,15 @@ impl SymbolTable {
             }
         }
         None
+    }
+
+    /// Forget the symbols defined in blocks deeper than 'depth'. This is
+    /// called when a block ends so that its bindings are no longer visible.
+    pub fn leave_block(&mut self, depth: usize) {
+        for symbols in self.store.values_mut() {
+            symbols.retain(|s| s.depth <= depth || s.scope == SymbolScope::Free);
+        }
+        self.store.retain(|_, symbols| !symbols.is_empty());
     }
 
     pub fn define_builtin_fn(&mut self, index: usize, name: &str) -> Rc<Symbol> {
